@@ -207,6 +207,14 @@ Theorem C10_scc_code_reset_covers : covers code_reset = true.
 Proof. exact code_reset_covers. Qed.
 Print Assumptions C10_scc_code_reset_covers.
 
+(* not every field of the reset is needed: a reset that leaves the time translator (_last_time, _frames) as the last read
+   left it still gives the new-object result, for every state, document and offset (start_at() overwrites both at the first
+   line; without a line nothing reads them) *)
+Theorem C10_scc_time_translator_reset_redundant : forall fs s offset ls,
+  covers (FTc :: FFrames :: fs) = true -> snd (reader_read fs s offset ls) = SccDecoder.read offset ls.
+Proof. exact time_translator_reset_redundant. Qed.
+Print Assumptions C10_scc_time_translator_reset_redundant.
+
 (* the hypothesis is needed: without any reset (the code before the repair) and with caption_stash / position tracker /
    last_command / non-displayed memory / active buffer / pop-on queue left out, a two-document history exists whose second
    result differs from the read on a new object; the covering reset gives the new-object result on the same histories *)
@@ -222,3 +230,8 @@ Example C10_example_refused_then_valid :
   = [RErr (ECrash 3); SccDecoder.read (fst doc_b) (snd doc_b)] /\
   (exists caps, SccDecoder.read (fst doc_b) (snd doc_b) = ROk caps /\ length caps = 1%nat).
 Proof. exact refused_then_valid. Qed.
+
+Example C10_example_reset_without_time_translator :
+  let fs := [FStash; FTk; FLast; FDstart; FPop; FPaint; FRoll; FActive; FQueue; FTime] in
+  covers fs = false /\ covers (FTc :: FFrames :: fs) = true.
+Proof. split; reflexivity. Qed.
